@@ -2,12 +2,15 @@
 """tools/import_mut.py <ID> : copy /tmp/mut/<ID>-out/m{k}.{diff,json}, m{k}_demo.py into seeded/<ID>-m{k}/"""
 import json, os, shutil, sys
 ROOT = os.path.dirname(os.path.dirname(os.path.abspath(__file__)))
-for pid in sys.argv[1:]:
-    src = f"/tmp/mut/{pid}-out"
+args = sys.argv[1:]
+rnd2 = "--round2" in args
+args = [a for a in args if a != "--round2"]
+for pid in args:
+    src = f"/tmp/mut2/{pid}-out" if rnd2 else f"/tmp/mut/{pid}-out"
     for k in (1, 2, 3, 4):
         if not os.path.exists(f"{src}/m{k}.diff"):
             continue
-        d = os.path.join(ROOT, "seeded", f"{pid}-m{k}")
+        d = os.path.join(ROOT, "seeded", f"{pid}-m{k + (2 if rnd2 else 0)}")
         os.makedirs(d, exist_ok=True)
         shutil.copy(f"{src}/m{k}.diff", f"{d}/patch.diff")
         shutil.copy(f"{src}/m{k}_demo.py", f"{d}/demo.py")
